@@ -139,6 +139,9 @@ func (comp) Gen(prop string, rng *rand.Rand, tier string) *core.History {
 	keys := allKeys[:nkeys]
 	setConfig(h, capacity, maxBytes, keys)
 	sizes := []int64{0, 10, 40, 40, 90, 150}
+	if core.Chance(rng, 1, 12) {
+		sizes = append(sizes, 1<<31, 1<<32, 1<<32+5) // edge of the 32-bit range
+	}
 	hostile := core.Chance(rng, 1, 8)    // negative sizes (rejected by the LRU; outside C17's domain)
 	withRemove := core.Chance(rng, 1, 6) // Remove / Clear (outside C17's domain; the monitor forgets the keys)
 	nops := 15 + rng.Intn(36)
